@@ -329,6 +329,11 @@ def sheets(ctx):
             if not ctx.quick:
                 specs.append(([(a, "none"), (b, "supports")], [(1, True, "#1e1e1e")]))
                 specs.append(([(a, "none"), (b, "media_supports")], [(0, False, None), (2, True, None)]))
+    # --default-bg in other spellings (named, rgb(), hsl(), upper case): single items, default mode
+    for k in K:
+        if k in fixed:
+            continue
+        specs.append(([(k, "none")], [(1, False, "black"), (1, True, "rgb(30, 30, 30)"), (1, False, "hsl(0, 0%, 93%)"), (1, False, "WHITE"), (1, False, "#FFF")]))
     # the recorded known findings that need three rules are exercised in both tiers (so that each listed finding is observed)
     specs.append(([("var_t", "none"), ("var_t", "none"), ("var_t_other_bg", "none")], [(2, True, "#1e1e1e")]))
     specs.append(([("var_t", "none"), ("var_t", "none"), ("star_hack", "none")], [(1, False, None)]))
